@@ -599,6 +599,246 @@ theorem load_named_cb (C : CtxC h main reg T rank) : ∀ (f : Nat) (prog : List 
       have hst : ({ st4 with working := st4.working.erase n } : LState) = st4 := by rw [herase]
       simp only [hst, tryCallbacksIfIdle_busy _ st4 (by rw [hwork4]; exact hbusy)]
 
+/-! ### the callbacks, once everything has been restored -/
+
+/-- a field of a restored cell while callbacks are being run; `Q c k` = "field `k` of cell `c` is still
+going to be processed" -/
+def FieldOk (reg : Reg) (st : LState) (Q : Nat → Nat → Prop) (c k : Nat) (f : Field) (l : LVal) : Prop :=
+  if f.phase = .cb then
+    RelVal reg st.memo f.val l ∨ (l = .pending ∧ (c, k, encVal reg f.val) ∈ st.pend ∧ Q c k)
+  else RelVal reg st.memo f.val l
+
+def CellOk (h : Heap) (reg : Reg) (st : LState) (Q : Nat → Nat → Prop) (n : Str) (c : Nat) : Prop :=
+  ∃ o ob lo, (o, n) ∈ reg ∧ h[o]? = some ob ∧ st.heap[c]? = some lo ∧ lo.cls = ob.cls ∧
+    lo.fields.length = ob.fields.length ∧
+    ∀ k f l, ob.fields[k]? = some f → lo.fields[k]? = some l → FieldOk reg st Q c k f l
+
+structure CbInv (h : Heap) (reg : Reg) (Q : Nat → Nat → Prop) (st : LState) : Prop where
+  keysNodup : (st.memo.map Prod.fst).Nodup
+  valsNodup : (st.memo.map Prod.snd).Nodup
+  allIn : ∀ o n, (o, n) ∈ reg → ∃ j, lookupMemo st.memo n = some j
+  pendOk : ∀ e ∈ st.pend, PendOk h reg st e
+  cells : ∀ e ∈ st.memo, CellOk h reg st Q e.1 e.2
+
+theorem cellVals_pointwise {st : LState} {c : Nat} : ∀ (k0 : Nat) (fs : List Field) (ls : List LVal),
+    CellVals reg st c k0 fs ls → ls.length = fs.length ∧
+    ∀ k f l, fs[k]? = some f → ls[k]? = some l →
+      (if f.phase = .cb then l = .pending ∧ (c, k0 + k, encVal reg f.val) ∈ st.pend ∧ c ∈ st.callbacks
+       else RelVal reg st.memo f.val l)
+  | _, [], [], _ => ⟨rfl, by intro k f l hk; simp at hk⟩
+  | _, _ :: _, [], h => by simp [CellVals] at h
+  | _, [], _ :: _, h => by simp [CellVals] at h
+  | k0, f0 :: fs, l0 :: ls, h => by
+    obtain ⟨ih1, ih2⟩ := cellVals_pointwise (k0 + 1) fs ls h.2
+    refine ⟨by simp [ih1], ?_⟩
+    intro k f l hk hl
+    cases k with
+    | zero =>
+      simp only [List.getElem?_cons_zero, Option.some.injEq] at hk hl
+      subst hk; subst hl
+      simpa using h.1
+    | succ k =>
+      simp only [List.getElem?_cons_succ] at hk hl
+      have := ih2 k f l hk hl
+      have e : k0 + 1 + k = k0 + (k + 1) := by omega
+      rw [e] at this; exact this
+
+theorem relVals_of_pointwise {memo : List (Str × Nat)} : ∀ (fs : List Field) (ls : List LVal),
+    ls.length = fs.length → (∀ (k : Nat) (f : Field) (l : LVal), fs[k]? = some f → ls[k]? = some l → RelVal reg memo f.val l) →
+    RelVals reg memo (fs.map (·.val)) ls
+  | [], [], _, _ => trivial
+  | _ :: _, [], hl, _ => by simp at hl
+  | [], _ :: _, hl, _ => by simp at hl
+  | f :: fs, l :: ls, hl, hp =>
+    ⟨hp 0 f l (by simp) (by simp),
+     relVals_of_pointwise fs ls (by simpa using hl) (fun k g m hk hm => hp (k + 1) g m (by simpa using hk) (by simpa using hm))⟩
+
+theorem findPend_some {p : List (Nat × Nat × JVal)} {c k : Nat} {j : JVal} (h : findPend p c k = some j) :
+    (c, k, j) ∈ p := by
+  induction p with
+  | nil => simp [findPend] at h
+  | cons e r ih =>
+    obtain ⟨c', k', j'⟩ := e
+    unfold findPend at h
+    by_cases hck : c' = c ∧ k' = k
+    · simp only [hck, and_self, if_true, Option.some.injEq] at h
+      rw [hck.1, hck.2, h]; exact List.mem_cons_self
+    · simp only [hck, if_false] at h
+      exact List.mem_cons_of_mem _ (ih h)
+
+theorem findPend_none {p : List (Nat × Nat × JVal)} {c k : Nat} (h : findPend p c k = none) (j : JVal) :
+    (c, k, j) ∉ p := by
+  induction p with
+  | nil => simp
+  | cons e r ih =>
+    obtain ⟨c', k', j'⟩ := e
+    unfold findPend at h
+    by_cases hck : c' = c ∧ k' = k
+    · simp [hck] at h
+    · simp only [hck, if_false] at h
+      intro hm
+      rcases List.mem_cons.mp hm with e1 | e1
+      · simp only [Prod.mk.injEq] at e1; exact hck ⟨e1.1.symm, e1.2.1.symm⟩
+      · exact ih h e1
+
+theorem mem_removePend {p : List (Nat × Nat × JVal)} {c k : Nat} {e : Nat × Nat × JVal} :
+    e ∈ removePend p c k ↔ e ∈ p ∧ ¬ (e.1 = c ∧ e.2.1 = k) := by
+  unfold removePend
+  simp only [List.mem_filter, Bool.not_eq_true', Bool.and_eq_false_iff, beq_eq_false_iff_ne, ne_eq]
+  constructor
+  · rintro ⟨h1, h2⟩; exact ⟨h1, fun ⟨a, b⟩ => by rcases h2 with h2 | h2 <;> contradiction⟩
+  · rintro ⟨h1, h2⟩
+    refine ⟨h1, ?_⟩
+    by_cases a : e.1 = c
+    · right; intro b; exact h2 ⟨a, b⟩
+    · left; exact a
+
+/-- with every registered name restored, a pending callback value resolves by a memo hit -/
+theorem memo_hit (C : CtxC h main reg T rank) {Q : Nat → Nat → Prop} {st : LState} (inv : CbInv h reg Q st) (f0 : Nat)
+    (ob : Obj) (hobm : ob ∈ h) (hrefs : RefsIn reg ob.fields) (g : Field) (hg : g ∈ ob.fields) :
+    ∃ v, object T (f0 + 1) st (encVal reg g.val) = (st, .ok v) ∧ RelVal reg st.memo g.val v := by
+  cases hv : g.val with
+  | lit n => exact ⟨.lit n, rfl, rfl⟩
+  | str s =>
+    refine ⟨.str s, ?_, rfl⟩
+    simp only [encVal, object, (literal_roundtrip s).1, if_true, (literal_roundtrip s).2]
+  | ref p =>
+    obtain ⟨m, hm⟩ := hrefs g hg p hv
+    have hpm : (p, m) ∈ reg := lookupName_some_mem hm
+    obtain ⟨j, hj⟩ := inv.allIn p m hpm
+    refine ⟨.ref j, ?_, ⟨m, hm, hj⟩⟩
+    have hlit : isLiteralStr m = false := C.regOk.notLiteral (p, m) hpm
+    simp only [encVal, hm, Option.getD_some, object, hlit, hj]
+    rfl
+  | own p => exact absurd hv (C.noOwn ob hobm g hg p)
+
+theorem FieldOk.monoQ {st : LState} {Q Q' : Nat → Nat → Prop} {c k : Nat} {f : Field} {l : LVal}
+    (hq : ∀ k', (c, k', encVal reg f.val) ∈ st.pend → Q c k' → Q' c k') (hf : FieldOk reg st Q c k f l) :
+    FieldOk reg st Q' c k f l := by
+  unfold FieldOk at hf ⊢
+  split
+  · rename_i hcb
+    simp only [hcb, if_true] at hf
+    rcases hf with hf | ⟨h1, h2, h3⟩
+    · exact Or.inl hf
+    · exact Or.inr ⟨h1, h2, hq k h2 h3⟩
+  · rename_i hcb
+    simp only [hcb, if_false] at hf; exact hf
+
+theorem CbInv.monoQ {Q Q' : Nat → Nat → Prop} {st : LState} (hq : ∀ c k j, (c, k, j) ∈ st.pend → Q c k → Q' c k)
+    (inv : CbInv h reg Q st) : CbInv h reg Q' st := by
+  refine ⟨inv.keysNodup, inv.valsNodup, inv.allIn, inv.pendOk, ?_⟩
+  intro e he
+  obtain ⟨o, ob, lo, a1, a2, a3, a4, a5, a6⟩ := inv.cells e he
+  exact ⟨o, ob, lo, a1, a2, a3, a4, a5, fun k f l hk hl => (a6 k f l hk hl).monoQ (fun k' hp hq' => hq _ _ _ hp hq')⟩
+
+/-- one `__setgluestate_callback__`: every pending field of cell `c0` is resolved by a memo hit -/
+theorem runCallback_ok (C : CtxC h main reg T rank) (f0 : Nat) (c0 : Nat) (rest : List Nat) :
+    ∀ (ks : List Nat) (st : LState),
+      CbInv h reg (fun c k => (c = c0 ∧ k ∈ ks) ∨ (c ≠ c0 ∧ c ∈ rest)) st →
+      ∃ st', runCallback (object T (f0 + 1)) c0 st ks = (st', true) ∧ st'.memo = st.memo ∧
+        CbInv h reg (fun c _ => c ≠ c0 ∧ c ∈ rest) st'
+  | [], st, inv => ⟨st, rfl, rfl, inv.monoQ (fun c k _ _ hq => by
+      rcases hq with ⟨_, hk⟩ | hq
+      · simp at hk
+      · exact hq)⟩
+  | k :: ks, st, inv => by
+    cases hfp : findPend st.pend c0 k with
+    | none =>
+      have inv' : CbInv h reg (fun c k' => (c = c0 ∧ k' ∈ ks) ∨ (c ≠ c0 ∧ c ∈ rest)) st :=
+        inv.monoQ (fun c k' j hp hq => by
+          rcases hq with ⟨hc, hk⟩ | hq
+          · left
+            refine ⟨hc, ?_⟩
+            rcases List.mem_cons.mp hk with e | e
+            · subst e; subst hc; exact absurd hp (findPend_none hfp j)
+            · exact e
+          · exact Or.inr hq)
+      obtain ⟨st', e', m', i'⟩ := runCallback_ok C f0 c0 rest ks st inv'
+      exact ⟨st', by simp only [runCallback, hfp]; exact e', m', i'⟩
+    | some src =>
+      have hmemp : (c0, k, src) ∈ st.pend := findPend_some hfp
+      obtain ⟨n, o, ob, f, b1, b2, b3, b4, b5, b6⟩ := inv.pendOk _ hmemp
+      simp only at b1 b4 b6
+      have hobm : ob ∈ h := List.mem_of_getElem? b3
+      obtain ⟨_, _, _, hrefs⟩ := C.tbl o n b2
+      have hrefs' : RefsIn reg ob.fields := by
+        obtain ⟨ob', c1, _, c3⟩ := C.tbl o n b2
+        rw [b3] at c1; cases c1; exact c3
+      obtain ⟨v, hv, hrel⟩ := memo_hit C inv f0 ob hobm hrefs' f (List.mem_of_getElem? b4)
+      let st2 : LState := { st with heap := setField st.heap c0 k v, pend := removePend st.pend c0 k }
+      have inv2 : CbInv h reg (fun c k' => (c = c0 ∧ k' ∈ ks) ∨ (c ≠ c0 ∧ c ∈ rest)) st2 := by
+        refine ⟨inv.keysNodup, inv.valsNodup, inv.allIn, ?_, ?_⟩
+        · intro e he
+          exact inv.pendOk e ((mem_removePend.mp he).1)
+        · intro e he
+          obtain ⟨o', ob', lo, a1, a2, a3, a4, a5, a6⟩ := inv.cells e he
+          by_cases hec : e.2 = c0
+          · -- the cell being completed
+            have hn : e.1 = n := by
+              have m1 : (e.1, e.2) ∈ st.memo := he
+              have m2 := lookupMemo_some_mem b1
+              have n1 := nameOfIdx_of_mem inv.valsNodup m1
+              rw [hec, nameOfIdx_of_mem inv.valsNodup m2] at n1
+              exact (Option.some.inj n1).symm
+            have ho : o' = o := C.regOk.obj_unique a1 (hn ▸ b2)
+            subst ho
+            rw [b3] at a2; cases a2
+            refine ⟨o', ob, { lo with fields := lo.fields.set k v }, a1, b3, ?_, a4, by simp [a5], ?_⟩
+            · simp only [st2, setField, List.getElem?_modify, hec ▸ a3, Option.map_eq_map, Option.map_some, hec, if_true]
+            · intro k2 f2 l2 hk2 hl2
+              by_cases hkk : k2 = k
+              · subst hkk
+                rw [b4] at hk2; cases hk2
+                have hlt : k2 < lo.fields.length := by
+                  rw [a5]; obtain ⟨hlt, _⟩ := List.getElem?_eq_some_iff.mp b4; exact hlt
+                simp only [List.getElem?_set, if_true, hlt, Option.some.injEq] at hl2
+                subst hl2
+                unfold FieldOk
+                simp only [b5, if_true]
+                exact Or.inl hrel
+              · simp only [List.getElem?_set, Ne.symm hkk, if_false] at hl2
+                have old := a6 k2 f2 l2 hk2 hl2
+                unfold FieldOk at old ⊢
+                split
+                · rename_i hcb
+                  simp only [hcb, if_true] at old
+                  rcases old with old | ⟨o1, o2, o3⟩
+                  · exact Or.inl old
+                  · right
+                    refine ⟨o1, mem_removePend.mpr ⟨o2, fun hh => hkk hh.2⟩, ?_⟩
+                    rcases o3 with ⟨_, hk2m⟩ | ⟨hne, _⟩
+                    · left
+                      refine ⟨hec, ?_⟩
+                      rcases List.mem_cons.mp hk2m with e1 | e1
+                      · exact absurd e1 hkk
+                      · exact e1
+                    · exact absurd hec hne
+                · rename_i hcb
+                  simp only [hcb, if_false] at old; exact old
+          · -- another cell: untouched
+            refine ⟨o', ob', lo, a1, a2, ?_, a4, a5, ?_⟩
+            · simp only [st2, setField, List.getElem?_modify, a3, Option.map_eq_map, Option.map_some, Ne.symm hec, if_false]
+            · intro k2 f2 l2 hk2 hl2
+              have old := a6 k2 f2 l2 hk2 hl2
+              unfold FieldOk at old ⊢
+              split
+              · rename_i hcb
+                simp only [hcb, if_true] at old
+                rcases old with old | ⟨o1, o2, o3⟩
+                · exact Or.inl old
+                · right
+                  refine ⟨o1, mem_removePend.mpr ⟨o2, fun hh => hec hh.1⟩, ?_⟩
+                  rcases o3 with ⟨hc, _⟩ | o3
+                  · exact absurd hc hec
+                  · exact Or.inr o3
+              · rename_i hcb
+                simp only [hcb, if_false] at old; exact old
+      obtain ⟨st', e', m', i'⟩ := runCallback_ok C f0 c0 rest ks st2 inv2
+      refine ⟨st', ?_, by rw [m'], i'⟩
+      simp only [runCallback, hfp, b6, hv]
+      exact e'
+
 end
 
 end GlueVerif.C02
